@@ -372,6 +372,23 @@ M('C12', 'copy-decoded-count', FL, "        s2k.count = self._count\n", "       
 M('C12', 'copy-drops-count', FL, "        s2k.count = self._count\n", "", 'C12.4')
 M('C12', 'reader-count-after-iv', FL, "            if self.specifier == String2KeyType.Iterated:\n                self.count = packet[0]\n                del packet[0]\n\n            if iv:\n                self.iv = packet[:(self.encalg.block_size // 8)]\n                del packet[:(self.encalg.block_size // 8)]",
   "            if iv:\n                self.iv = packet[:(self.encalg.block_size // 8)]\n                del packet[:(self.encalg.block_size // 8)]\n\n            if self.specifier == String2KeyType.Iterated:\n                self.count = packet[0]\n                del packet[0]", 'C12.4')
+# --- follow-up (held-out wave 3): derived keys / streams cached across a change of salt, lossy passphrase encodings
+_DK_RET = "        return b''.join(hc.digest() for hc in h)[:(keylen // 8)]"
+M('C12', 'dk-memo-ignores-salt', FL, "        ctx = int(math.ceil((keylen / hashlen)))\n", "        ctx = int(math.ceil((keylen / hashlen)))\n        memo = (passphrase, self.halg, self.encalg, self.specifier, self._count)\n        if memo in _S2K_KEYS:\n            return _S2K_KEYS[memo]\n", 'C12.1',
+  more=[(FL, _DK_RET, "        _S2K_KEYS[memo] = b''.join(hc.digest() for hc in h)[:(keylen // 8)]\n        return _S2K_KEYS[memo]"), (FL, "class String2Key(Field):\n", "_S2K_KEYS = {}\n\n\nclass String2Key(Field):\n")])
+M('C12', 'dk-lru-cache', FL, "    def derive_key(self, passphrase):\n        ##TODO", "    @functools.lru_cache(maxsize=16)\n    def derive_key(self, passphrase):\n        ##TODO", 'C12.1',
+  more=[(FL, "import hashlib\n", "import functools\nimport hashlib\n")])
+M('C12', 'dk-stream-cached-on-object', FL, "            _h.update(hashdata)\n", "            _h.update(self._stream)\n", 'C12.1',
+  more=[(FL, "        h = []\n        for i in range(0, ctx):\n", "        if getattr(self, '_stream', None) is None:\n            self._stream = hashdata\n\n        h = []\n        for i in range(0, ctx):\n")])
+M('C12', 'dk-salt-snapshot', FL, "            hsalt = bytes(self.salt)\n", "            if getattr(self, '_hsalt', None) is None:\n                self._hsalt = bytes(self.salt)\n            hsalt = self._hsalt\n", 'C12.1')
+M('C12', 'dk-encode-errors-ignore', FL, "            hpass = passphrase.encode('utf-8')", "            hpass = passphrase.encode('utf-8', 'ignore')", 'C12.1')
+M('C12', 'dk-pass-stripped', FL, "            hpass = passphrase.encode('utf-8')", "            hpass = passphrase.strip().encode('utf-8')", 'C12.1')
+M('C12', 'dk-contexts-forked-after-data', FL, "        h = []\n        for i in range(0, ctx):\n            _h = self.halg.hasher\n            _h.update(b'\\x00' * i)\n            _h.update(hashdata)\n            h.append(_h)\n",
+  "        base = self.halg.hasher\n        base.update(hashdata)\n        h = []\n        for i in range(0, ctx):\n            _h = base.copy()\n            _h.update(b'\\x00' * i)\n            h.append(_h)\n", 'C12.1')
+M('C12', 'count-setter-stores-decoded', FL, "            raise ValueError(\"count must be between 0 and 256\")\n        self._count = val\n", "            raise ValueError(\"count must be between 0 and 256\")\n        self._count = (16 + (val & 15)) << ((val >> 4) + 6)\n", 'C12.3')
+M('C12', 'count-getter-clamped', FL, "        return (16 + (self._count & 15)) << ((self._count >> 4) + 6)", "        return min((16 + (self._count & 15)) << ((self._count >> 4) + 6), 0x2000000)", 'C12.3')
+M('C12', 'writer-iv-only-for-iterated', FL, "            if self.iv is not None:\n                _bytes += self.iv\n", "            if self.iv is not None and self.specifier == String2KeyType.Iterated:\n                _bytes += self.iv\n", 'C12.4')
+M('C12', 'reader-salt-for-simple', FL, "            if self.specifier >= String2KeyType.Salted:\n                self.salt = packet[:8]\n                del packet[:8]", "            if self.specifier >= String2KeyType.Simple:\n                self.salt = packet[:8]\n                del packet[:8]", 'C12.4')
 
 # =============================================================================================== C18
 M('C18', 'fp-without-pkalg', PK, "        fp.update(self.int_to_bytes(self.pkalg))\n", "", 'C18.1')
@@ -2685,6 +2702,36 @@ T('C06', 'twin-export-swapped-arms', FL, "        if self.s2k:\n            _byt
   "        if not self.s2k:\n            _bytes += b''.join(getattr(self, field).to_mpibytes() for field in self.__privfields__)\n\n        else:\n            _bytes += self.encbytes")
 M('C06', 'export-private-on-usage', FL, "        if self.s2k:\n            _bytes += self.encbytes\n\n        else:\n            for field in self.__privfields__:\n                _bytes += getattr(self, field).to_mpibytes()",
   "        if self.s2k and self.encbytes:\n            _bytes += self.encbytes\n\n        else:\n            for field in self.__privfields__:\n                _bytes += getattr(self, field).to_mpibytes()", 'C06.5')
+# --- follow-up (held-out wave 3): decrypted-buffer reader sequence (C06.4), exits of any exception class (C06.1)
+_RSA_RD = "        self.d = MPI(kb)\n        self.p = MPI(kb)\n        self.q = MPI(kb)\n        self.u = MPI(kb)\n"
+M('C06', 'rsa-u-recomputed-after-read', FL, _RSA_RD, _RSA_RD + "        self.u = MPI(rsa.rsa_crt_iqmp(self.p, self.q))\n", 'C06.4')
+M('C06', 'rsa-u-recomputed-not-read', FL, _RSA_RD, "        self.d = MPI(kb)\n        self.p = MPI(kb)\n        self.q = MPI(kb)\n        self.u = MPI(rsa.rsa_crt_iqmp(self.q, self.p))\n", 'C06.4')
+M('C06', 'rsa-p-q-read-swapped', FL, _RSA_RD, "        self.d = MPI(kb)\n        self.q = MPI(kb)\n        self.p = MPI(kb)\n        self.u = MPI(kb)\n", 'C06.4')
+M('C06', 'rsa-u-left-unread', FL, _RSA_RD, "        self.d = MPI(kb)\n        self.p = MPI(kb)\n        self.q = MPI(kb)\n", 'C06.4')
+M('C06', 'elg-first-mpi-discarded', FL, "        kb = super(ElGPriv, self).decrypt_keyblob(passphrase)\n        del passphrase\n\n        self.x = MPI(kb)\n",
+  "        kb = super(ElGPriv, self).decrypt_keyblob(passphrase)\n        del passphrase\n\n        MPI(kb)\n        self.x = MPI(kb)\n", 'C06.4')
+M('C06', 'dsa-x-reduced-mod-q', FL, "        kb = super(DSAPriv, self).decrypt_keyblob(passphrase)\n        del passphrase\n\n        self.x = MPI(kb)\n",
+  "        kb = super(DSAPriv, self).decrypt_keyblob(passphrase)\n        del passphrase\n\n        self.x = MPI(MPI(kb) % self.q)\n", 'C06.4')
+M('C06', 'eddsa-s-raw-int', FL, "        kb = super(EdDSAPriv, self).decrypt_keyblob(passphrase)\n        del passphrase\n        self.s = MPI(kb)\n",
+  "        kb = super(EdDSAPriv, self).decrypt_keyblob(passphrase)\n        del passphrase\n        self.s = MPI(self.bytes_to_int(kb[2:]))\n", 'C06.4')
+T('C06', 'twin-rsa-read-loop', FL, _RSA_RD, "        for name in ('d', 'p', 'q', 'u'):\n            setattr(self, name, MPI(kb))\n")
+T('C06', 'twin-rsa-read-temps', FL, _RSA_RD, "        blob = kb\n        d = MPI(blob)\n        p = MPI(blob)\n        q = MPI(blob)\n        u = MPI(blob)\n        self.d, self.p = d, p\n        self.q = q\n        self.u = u\n")
+_UNL_CLR = "            for sk in itertools.chain([self], self.subkeys.values()):\n                sk._key.keymaterial.clear()"
+_UNL_BODY = "        try:\n            for sk in itertools.chain([self], self.subkeys.values()):\n                sk._key.unprotect(passphrase)\n            del passphrase\n            yield self\n\n"
+M('C06', 'unlock-cleanup-under-except-exception', PGP, _UNL_TRY, _UNL_BODY + "        except Exception:\n" + _UNL_CLR + "\n            raise\n\n        else:\n" + _UNL_CLR, 'C06.1')
+M('C06', 'unlock-closure-under-except-exception', PGP, _UNL_TRY, "        def _relock():\n" + _UNL_CLR + "\n\n" + _UNL_BODY + "        except Exception:\n            _relock()\n            raise\n\n        else:\n            _relock()", 'C06.1')
+M('C06', 'unlock-subkeys-skipped-on-base-exception', PGP, _UNL_TRY, _UNL_BODY + "        except Exception:\n" + _UNL_CLR + "\n            raise\n\n        else:\n" + _UNL_CLR + "\n\n        finally:\n            self._key.keymaterial.clear()", 'C06.1')
+M('C06', 'unlock-relock-skips-subkeys-on-error', PGP, _UNL_TRY, _UNL_BODY + "        finally:\n            self._key.keymaterial.clear()\n            if sys.exc_info()[0] is None:\n                for sk in self.subkeys.values():\n                    sk._key.keymaterial.clear()", 'C06.1',
+  more=[(PGP, "import re\nimport warnings\n", "import re\nimport sys\nimport warnings\n")])
+M('C06', 'unlock-cleanup-in-else-only', PGP, _UNL_TRY, _UNL_BODY + "        except PGPDecryptionError:\n            raise\n\n        else:\n" + _UNL_CLR, 'C06.1')
+M('C06', 'unlock-except-exception-and-generatorexit', PGP, _UNL_TRY, _UNL_BODY + "        except (Exception, GeneratorExit):\n" + _UNL_CLR + "\n            raise\n\n        else:\n" + _UNL_CLR, 'C06.1')
+T('C06', 'twin-unlock-except-baseexception', PGP, _UNL_TRY, _UNL_BODY + "        except BaseException:\n" + _UNL_CLR + "\n            raise\n\n        else:\n" + _UNL_CLR)
+T('C06', 'twin-unlock-bare-except-closure', PGP, _UNL_TRY, "        def _relock():\n" + _UNL_CLR + "\n\n" + _UNL_BODY + "        except:  # noqa: E722\n            _relock()\n            raise\n\n        else:\n            _relock()")
+M('C06', 'keyblob-clear-first', FL, "        sessionkey = self.s2k.derive_key(passphrase)\n        del passphrase\n\n        pt = bytearray()\n", "        sessionkey = self.s2k.derive_key(passphrase)\n        del passphrase\n        self.clear()\n\n        pt = bytearray()\n", 'C06.3',
+  more=[(FL, "        # delete pt and clear self\n        del pt\n        self.clear()", "        # delete pt\n        del pt")])
+M('C06', 'privkey-cached-module-dict', FL, "        params = dsa.DSAParameterNumbers(self.p, self.q, self.g)\n        pn = dsa.DSAPublicNumbers(self.y, params)\n        return dsa.DSAPrivateNumbers(self.x, pn).private_key(default_backend())",
+  "        if id(self) not in _DSA_KEYS:\n            params = dsa.DSAParameterNumbers(self.p, self.q, self.g)\n            pn = dsa.DSAPublicNumbers(self.y, params)\n            _DSA_KEYS[id(self)] = dsa.DSAPrivateNumbers(self.x, pn).private_key(default_backend())\n        return _DSA_KEYS[id(self)]", 'C06.2',
+  more=[(FL, "class DSAPriv(PrivKey, DSAPub):\n", "_DSA_KEYS = {}\n\n\nclass DSAPriv(PrivKey, DSAPub):\n")])
 
 # =============================================================================================== C10
 M('C10', 'crc-init', TY, "    __crc24_init = 0x0B704CE", "    __crc24_init = 0x0B704CF", 'C10.1')
